@@ -275,3 +275,24 @@ def validate_traces(tag, programs, runs, workers=8, timeout=1500):
         raise ToolError("TLC failed on the trace specification (%s):\n%s" % (tag, res.error))
     accepted = {a["i"] for a in res.tagged.get("ACCEPT", [])}
     return res, accepted
+
+
+def validate_fine(tag, runs, workers=8, timeout=1500):
+    """Fine-grained trace validation: every recorded library operation of every run must be an
+    action of LexUtil.tla.  runs: dicts with i, inp, fine.  Returns (tlc, ok: {i: lead or None},
+    rejected: {i: info})."""
+    d = ensure_dir(os.path.join(BUILD, tag))
+    fj = os.path.join(d, "fine.ndjson")
+    with open(fj, "w") as f:
+        for r in runs:
+            f.write(json.dumps({"i": r["i"], "inp": r["inp"], "fine": r["fine"]}, separators=(",", ":")))
+            f.write("\n")
+    res = run_tlc("LexUtil.tla", "LexUtil.cfg", env={"VERIF_FINE": fj}, workers=workers, timeout=timeout,
+                  tag=tag + "_fine")
+    if not res.ok:
+        raise ToolError("TLC failed on LexUtil.tla (%s):\n%s" % (tag, res.error))
+    ok = {}
+    for a in res.tagged.get("FINEOK", []):
+        ok[a["i"]] = a["lead"][0] if a["lead"] else None
+    rej = {a["i"]: a for a in res.tagged.get("FINEREJ", [])}
+    return res, ok, rej
